@@ -102,6 +102,9 @@ theorem never_empty_everywhere (ci : SCls → ClsInfo) (f : Fmt) (t : Node) (e :
   | string => simp [evOK, hc] at h
 
 example : ∀ e ∈ eventStream (flatten none none 0 demo), evOK e = true := events_classified demo
+/-- the `<script>` element of `demo` (item 4, one child): START and END pieces without a void slash -/
+example : ((eventStream (flatten none none 0 demo)).map fun e => (e.1, e.2.id, e.2.pl.isEmptyElement)).contains (.start, 4, false) = true ∧
+    piece liveClsInfo minimalHtml (Ev.stop, (⟨4, some 0, .tag (tg "script") 1⟩ : Item)) = ofS "</script>" := by decide
 
 /-- the complementary case, for reference: a childless element is `<x/>` (with the formatter's prefix) exactly when
     `can_be_empty_element` is true, else `<x></x>` -/
@@ -396,6 +399,14 @@ theorem decode_keyerror (ci : SCls → ClsInfo) (r : Bool) (chain : List (Option
 example : decodeTop liveClsInfo liveEnv false [some true] (.name (some (ofS "html5"))) demo = none := by decide
 example : decodeTop liveClsInfo liveEnv false [none, some true] (.name (some (ofS "minimal")))
     (.tag (tg "script" [] true) []) = some (ofS "<script/>") := by decide
+
+/-- `str(el)` / `repr(el)` = `decode()` with the default key 'minimal': it exists in both registries, so `str()` never
+    raises, whatever the flavour the parent chain decides -/
+theorem str_never_keyerror (ci : SCls → ClsInfo) (r : Bool) (chain : List (Option Bool)) (n : Node) :
+    (decodeTop ci liveEnv r chain (.name (some (ofS "minimal"))) n).isSome = true := by
+  have := registry_lookup_live.1 (isXmlImpl r chain)
+  simp only [decodeTop, formatterForName, liveEnv] at this ⊢
+  rw [this]; rfl
 
 /-- `decode(formatter=…)` end to end: the resolved formatter, then the structural rendering. -/
 theorem decodeTop_eq (ci : SCls → ClsInfo) (e : FmtEnv) (r : Bool) (chain : List (Option Bool)) (a : FmtArg) (n : Node) :
